@@ -172,6 +172,26 @@ Proof. reflexivity. Qed.
 Lemma beyond_conds : forall o p, beyond o p = cond_l o p || cond_u o p || cond_m o p.
 Proof. reflexivity. Qed.
 
+(* the GENERATED comparisons are the canonical ones, up to ring rearrangement of their operands
+   (a changed operator -- `<=` for `<` -- makes these fail) *)
+Ltac gen_cmp := first [ reflexivity
+                      | apply Qltb_compat; first [reflexivity | ring]
+                      | apply sqrtmul_lt_compat; first [reflexivity | ring] ].
+Lemma gen_lower_sig_qbad : forall d l s, rej_lower_sig_qbad d l s = Qltb d ((- l) * s).
+Proof. intros. unfold rej_lower_sig_qbad. gen_cmp. Qed.
+Lemma gen_upper_sig_qbad : forall d u s, rej_upper_sig_qbad d u s = Qltb (u * s) d.
+Proof. intros. unfold rej_upper_sig_qbad. gen_cmp. Qed.
+Lemma gen_lower_iv_qbad : forall d l iv, rej_lower_iv_qbad d l iv = sqrtmul_lt d iv (- l).
+Proof. intros. unfold rej_lower_iv_qbad. gen_cmp. Qed.
+Lemma gen_upper_iv_qbad : forall d u iv, rej_upper_iv_qbad d u iv = sqrtmul_lt (- d) iv (- u).
+Proof. intros. unfold rej_upper_iv_qbad. gen_cmp. Qed.
+Lemma gen_maxdev_qbad : forall d x, rej_maxdev_qbad d x = Qltb x (Qabs d).
+Proof. intros. unfold rej_maxdev_qbad. gen_cmp. Qed.
+Lemma gen_lower_iv_pos : forall d l iv q, rej_lower_iv_term d l iv q = b2q (sqrtmul_lt d iv 0) * b2q q.
+Proof. intros. unfold rej_lower_iv_term. first [reflexivity | do 2 f_equal; apply sqrtmul_lt_compat; ring]. Qed.
+Lemma gen_upper_iv_pos : forall d u iv q, rej_upper_iv_term d u iv q = b2q (sqrtmul_lt (- d) iv 0) * b2q q.
+Proof. intros. unfold rej_upper_iv_term. first [reflexivity | do 2 f_equal; apply sqrtmul_lt_compat; ring]. Qed.
+
 Lemma opts_ok_inv : forall o, opts_ok o = true ->
   (forall l, o_lower o = Some l -> 0 <= l) /\ (forall u, o_upper o = Some u -> 0 <= u) /\
   (forall x, o_maxdev o = Some x -> 0 < x).
@@ -189,11 +209,10 @@ Proof.
   intros o p Ho Hs. destruct (opts_ok_inv o Ho) as (Hl & _ & _).
   unfold term_l, cond_l. destruct (o_lower o) as [l|]; [|reflexivity]. specialize (Hl l eq_refl).
   destruct (p_scale p) as [s|iv]; cbn in Hs.
-  - apply Qle_bool_iff in Hs. unfold rej_lower_sig_term, rej_lower_sig_qbad.
+  - apply Qle_bool_iff in Hs. rewrite gen_lower_sig_qbad. unfold rej_lower_sig_term.
     change (s + b2q (Qeq_bool s 0)) with (sig1 s).
     rewrite b2q_and, sig_lower_and by assumption. reflexivity.
-  - unfold rej_lower_iv_term, rej_lower_iv_qbad.
-    rewrite (sqrtmul_lt_compat (- - (p_data p - p_model p)) (p_data p - p_model p) iv (- 0) 0) by ring.
+  - rewrite gen_lower_iv_qbad, gen_lower_iv_pos.
     rewrite b2q_and, ivar_and by assumption. reflexivity.
 Qed.
 
@@ -203,11 +222,10 @@ Proof.
   intros o p Ho Hs. destruct (opts_ok_inv o Ho) as (_ & Hu & _).
   unfold term_u, cond_u. destruct (o_upper o) as [u|]; [|reflexivity]. specialize (Hu u eq_refl).
   destruct (p_scale p) as [s|iv]; cbn in Hs.
-  - apply Qle_bool_iff in Hs. unfold rej_upper_sig_term, rej_upper_sig_qbad.
+  - apply Qle_bool_iff in Hs. rewrite gen_upper_sig_qbad. unfold rej_upper_sig_term.
     change (s + b2q (Qeq_bool s 0)) with (sig1 s).
     rewrite b2q_and, sig_upper_and by assumption. reflexivity.
-  - unfold rej_upper_iv_term, rej_upper_iv_qbad.
-    rewrite (sqrtmul_lt_compat (- (p_data p - p_model p)) (- (p_data p - p_model p)) iv (- 0) 0) by ring.
+  - rewrite gen_upper_iv_qbad, gen_upper_iv_pos.
     rewrite b2q_and, ivar_and by assumption. reflexivity.
 Qed.
 
@@ -215,7 +233,7 @@ Lemma term_m_ok : forall o p, opts_ok o = true ->
   0 <= term_m o p /\ (term_m o p == 0 <-> cond_m o p = false).
 Proof.
   intros o p Ho. destruct (opts_ok_inv o Ho) as (_ & _ & Hx).
-  unfold term_m, cond_m, rej_maxdev_term, rej_maxdev_qbad. destruct (o_maxdev o) as [x|]; [|split; [lra | split; [reflexivity | intros; reflexivity]]].
+  unfold term_m, cond_m. destruct (o_maxdev o) as [x|]; rewrite ?gen_maxdev_qbad; unfold rej_maxdev_term; [|split; [lra | split; [reflexivity | intros; reflexivity]]].
   specialize (Hx x eq_refl). destruct (Qltb x (Qabs (p_data p - p_model p))) eqn:B; cbn [b2q].
   - apply Qltb_iff in B. assert (P : 0 < Qabs (p_data p - p_model p) / x) by (apply div_pos; lra).
     split; [lra|]. split; [intros; lra | discriminate].
